@@ -136,11 +136,11 @@ Section Inv.
   Definition rename_source_leaf (o : op) (w : world) : Prop :=
     match o with ORename old _ => no_children (Vb w) old | _ => True end.
 
-  (** RemoveAll of the root itself is not covered (recorded finding "removes
+  (** Remove and RemoveAll of the root itself are not covered (recorded finding "removes
       the root"); everything else is: nothing, a file, a symlink, a directory
       with whatever lies below it *)
   Definition removeall_not_root (o : op) : Prop :=
-    match o with ORemoveAll n => n <> s_root | _ => True end.
+    match o with ORemoveAll n | ORemove n => n <> s_root | _ => True end.
 
   (** the side conditions under which an operation is covered: its names are
       resolved, it does not follow a final symlink, and the two restrictions
